@@ -8,7 +8,7 @@ VALS = ["", "-", "--", "--rm", "-e", "a b", "a=b", "=x", "x=", "ünï©ödé ✓
         "'q'", '"dq"', "a,b", "--name", "--name=evil", "--mount", "libcnbtest_aaaaaaaaaaaa", "\\", "*", "new\nline"]
 KEYS = ["A", "PATH", "MY_VAR", "a.b", "-k", "--rm", "k k", "ü", "K2"]
 BPS = ["heroku/nodejs", "-x", "--builder", "docker://x/y:1", "a b", "urn:cnb:registry:heroku/ruby", "--trust-builder", "--env=A=B", "ü/ß"]
-BUILDERS = ["heroku/builder:22", "--weird", "b b", "builder=1"]
+BUILDERS = ["heroku/builder:22", "--weird", "b b", "builder=1", "registry.example.com/Team/builder:24-RC1", "heroku/builder:Noble_2024.10"]
 APPDIRS = ["fixtures/app", "a b/ünï", "./x", "-app", "$ABS/appdir", "$ABS/a b/--x", "x//y", "t/",
            "$TMP/fix", "$TMP/a b/app"]        # $TMP: a fixture below the system temporary directory
 PORTS = [0, 1, 80, 443, 8080, 65535]
